@@ -158,10 +158,29 @@ func c09hcCheckersBody() {
 		sched.AdvanceTime(int64(time.Second)) // late answers
 		sched.WaitQuiescent()
 	}
+	// Stop may arrive while a check round is in progress (a silent or late backend keeps a check busy until its
+	// timeout): Stop waits for the round, and when it returns nothing of the monitor is left
+	mid := sched.Choose(sched.ClsInput, 2, "stop in the middle of a round") == 1
+	if mid {
+		sched.AdvanceTime(int64(8 * time.Second))
+		sched.WaitQuiescent()
+		rounds++
+	}
 	stopped := false
 	sched.GoNamed("stopper", func() { m.Stop(); stopped = true })
 	sched.WaitQuiescent()
+	if mid && !stopped {
+		sched.AdvanceTime(int64(time.Second)) // the check timeout
+		sched.WaitQuiescent()
+		if !stopped {
+			sched.AdvanceTime(int64(time.Second))
+			sched.WaitQuiescent()
+		}
+	}
 	tag := fmt.Sprintf("%s checker, backend %s, %d round(s)", proto, behaviour, rounds)
+	if mid {
+		tag += ", Stop during the last round"
+	}
 	if !stopped {
 		sched.Fail("monitor-stop-never-returns / "+proto+" checker", tag)
 		return
